@@ -151,6 +151,31 @@ Definition transpose_write (t : tree) (p : path) (data : list byte) : res tree :
          Ok (tset t2 p (File data)))
   end.
 
+(** all nonempty prefixes of [done ++ rest] that extend [done] (the last one is the path itself) *)
+Fixpoint prefixes_from (done rest : path) : list path :=
+  match rest with
+  | [] => []
+  | s :: rest' => (done ++ [s]) :: prefixes_from (done ++ [s]) rest'
+  end.
+Definition ne_prefixes (p : path) : list path := prefixes_from [] p.
+(** proper non-empty prefixes of a path *)
+Definition proper_prefixes (p : path) : list path := ne_prefixes (parent p).
+
+(** a well-formed container (what a walk of a directory produces): no path twice, no entry at
+    the root, every proper prefix of an entry is one of the directories, sizes not negative *)
+Definition c_paths (c : container) : list path := c_dirs c ++ map fst (c_files c) ++ map fst (c_links c).
+Definition wf_container (c : container) : Prop :=
+  NoDup (c_paths c) /\ ~ In [] (c_paths c) /\
+  (forall p q, In p (c_paths c) -> In q (proper_prefixes p) -> In q (c_dirs c)) /\
+  (forall f, In f (c_files c) -> (0 <= snd f)%Z).
+
+(** what Prepare lays out for a container: directories, zero-filled files of the declared
+    sizes, symlinks *)
+Definition ctree (c : container) : tree :=
+  map (fun d => (d, Dir)) (c_dirs c) ++
+  map (fun f => (fst f, File (zeros (Z.to_nat (snd f))))) (c_files c) ++
+  map (fun l => (fst l, Link (snd l))) (c_links c).
+
 (** ---- builds: what the properties quantify over ---- *)
 Definition build := list (path * node).
 
@@ -166,15 +191,6 @@ Definition links_of (b : build) : list (path * list byte) :=
 Definition container_of (b : build) : container :=
   mkC (map (fun f => (fst f, Z.of_nat (length (snd f)))) (files_of b)) (dirs_of b) (links_of b).
 Definition contents_of (b : build) : list (list byte) := map snd (files_of b).
-
-(** proper non-empty prefixes of a path *)
-Fixpoint proper_prefixes_from (done rest : path) : list path :=
-  match rest with
-  | [] => []
-  | [_] => []
-  | s :: rest' => (done ++ [s]) :: proper_prefixes_from (done ++ [s]) rest'
-  end.
-Definition proper_prefixes (p : path) : list path := proper_prefixes_from [] p.
 
 (** a well-formed build: no path twice, no entry at the root, every proper prefix of an entry
     is a directory entry *)
